@@ -161,6 +161,23 @@ def o_path_nodes(case):
     fresh = net.keys.bip32_seed(seed)
     compare("path-string", fresh.subkey_for_path(s + ".pub"), refs[-1].public(), vers, "subkey_for_path(%r) seed %s %s" % (s + ".pub", case["seed"], code))
 
+    # a copy of a node is the same node (a wallet hands copies to worker code): every field incl. the secret, and it
+    # derives the same children.  copy.copy works on every node; deepcopy / pickle are judged only where they succeed.
+    import copy as _copy
+    import pickle as _pickle
+    for how, mk in (("copy.copy", _copy.copy), ("copy.deepcopy", _copy.deepcopy), ("pickle", lambda o: _pickle.loads(_pickle.dumps(o)))):
+        try:
+            dup = mk(nodes[-1])
+        except Exception:      # noqa - not every node class supports deep copies; that is not under test
+            if how == "copy.copy":
+                raise
+            continue
+        compare("copy", dup, refs[-1], vers, "%s of the node at %s (seed %s, %s)" % (how, s or "m", case["seed"], code))
+        r7 = R.ckd_priv(refs[-1], 7 + HARD)
+        if r7 is not None:
+            compare("copy", dup.subkey(i=7, is_hardened=True), r7, vers, "hardened child 7 of the %s of the node at %s (seed %s, %s)" % (
+                how, s or "m", case["seed"], code))
+
     # longest non-hardened suffix, derived from the public copy only
     j = len(path)
     while j > 0 and not path[j - 1][1]:
